@@ -1,9 +1,12 @@
-(* C10: property theorems.  Statements only; every proof is `exact` of a lemma in Proofs/. *)
+(* C10 -- finalize() accepts exactly the true end of the forward and nothing else
+   Property theorems only: each proof is one application of a lemma proved in Proofs/, followed by Print Assumptions. *)
 From Coq Require Import ZArith List Bool.
 From CS Require BasicProofs.
+From CS Require Import Actions NAdvance Multistage Exec Sched RunFacts Projections BasicInv MultistageRun TLBridge.
 Import ListNotations.
 Open Scope Z_scope.
 
+(* online, not finalised: finalize(k) succeeds iff 1 <= k <= n, and then fixes max_n = n = k *)
 Module M_C10_online.
 Import BasicProofs.
 Theorem C10_online :
@@ -16,6 +19,7 @@ Proof. exact (@BasicProofs.C10_online). Qed.
 Print Assumptions C10_online.
 End M_C10_online.
 
+(* max_n known: finalize(k) is a no-op iff k = max_n = n; state unchanged in every case *)
 Module M_C10_known.
 Import BasicProofs.
 Theorem C10_known :
@@ -27,6 +31,7 @@ Proof. exact (@BasicProofs.C10_known). Qed.
 Print Assumptions C10_known.
 End M_C10_known.
 
+(* every other call: ValueError if k < 1 else RuntimeError, state unchanged *)
 Module M_C10_reject.
 Import BasicProofs.
 Theorem C10_reject :
@@ -38,6 +43,7 @@ Proof. exact (@BasicProofs.C10_reject). Qed.
 Print Assumptions C10_reject.
 End M_C10_reject.
 
+(* after a successful finalisation in the forward loop the next action is EndForward *)
 Module M_C10_next_endforward.
 Import BasicProofs.
 Theorem C10_next_endforward :
